@@ -10,9 +10,9 @@ Files ==
       ln \in {0, 7, 31, 32, 45, 100}, k \in {0, 1, 2, 7}, tx \in {"al", "xx"}, mg \in {0, 5}, vr \in {0, 1}, tl \in {"data", "zero"}}
   \cup {[exists |-> FALSE, len |-> 0, kind |-> 0, text |-> "al", magic |-> 0, ver |-> 0, cursor |-> 0, tail |-> "zero"]}
 Attempts ==
-  {[variant |-> v, cap |-> c, reserved |-> r, kind |-> k, magic |-> m, create |-> cr, create_new |-> cn] :
+  {[variant |-> v, cap |-> c, reserved |-> r, kind |-> k, magic |-> m, create |-> cr, create_new |-> cn, truncate |-> tr, append |-> ap] :
       v \in {"map_mut", "map_copy", "map", "map_copy_ro"}, c \in {0, 100, 200}, r \in {0, 5}, k \in {0, 1, 2}, m \in {0, 5},
-      cr \in BOOLEAN, cn \in BOOLEAN}
+      cr \in BOOLEAN, cn \in BOOLEAN, tr \in BOOLEAN, ap \in BOOLEAN}
 
 Init == f \in Files /\ att \in Attempts /\ out = [res |-> "none"] /\ phase = 0
 Next == phase = 0 /\ phase' = 1 /\ out' = Open(f, att) /\ UNCHANGED <<f, att>>
